@@ -159,3 +159,31 @@ def ssc_chart_items(ctx: Ctx, judge_skip_only: bool = False) -> None:
 
     judge(ctx, "R-ORDER", fi, "NOTEDATA is written first and the notes item last (key only when its value is None), each followed by whitespace only", pre_post, [A, B, N1, N2], spec_frame,
           dont_care=[K1, K2, VN, MULTI], why="the reader opens a chart at NOTEDATA and stops at the notes item")
+
+
+CHARTS_SERIALIZE = "simfile.base:BaseCharts.serialize"
+
+
+def charts_items(ctx: Ctx) -> None:
+    """Every element of the chart list is written by its own serialize(file) (which fails loudly for anything that is not a chart), followed by
+    whitespace only; elements in list order, none skipped."""
+    fi = ctx.p.func(CHARTS_SERIALIZE)
+    sums = sums_of(ctx, fi)
+    s, fp = fi.param_names()[:2]
+    loops = {(e.line, ast.unparse(e.value), ast.unparse(e.target)) for sm in sums for e in sm.effects if e.kind == "for"}
+    require(len(loops) == 1, f"{fi.fq}: expected one loop over the chart list, found {sorted(loops)}")
+    line, it, x = next(iter(loops))
+    ctx.expect("R-ORDER", fi, "the chart list itself is walked (list order)", it == s, it, f"the loop iterates {it}, not the list itself: chart order / membership would change")
+    n = 0
+    for sm in sums:
+        if not any(e.kind == "for" and e.line == line for e in sm.effects):
+            continue
+        n += 1
+        toks = tuple(t for t in (token(e, s, fp) for e in sm.effects if line in e.loops) if t is not None)
+        outside = tuple(t for t in (token(e, s, fp) for e in sm.effects if not e.loops) if t not in (None, "return"))
+        conds = sorted(k for k, _ in sm.atoms_in(line))
+        good = toks == (f"serialize {x}", "blank") and not conds and not outside
+        ctx.expect("R-ORDER", fi, "each chart is written by chart.serialize(file) and followed by a line break; unconditionally, nothing else is written", good, str(toks),
+                   f"per element the chart list writes {toks} under {conds or 'no condition'} (outside the loop: {outside}): formatting an element (str / f-string) instead of calling its serialize() "
+                   "turns a non-chart in the list into text instead of an error, and a skipped chart is lost", node=fi.node)
+    ctx.floor("paths through the chart loop of BaseCharts.serialize", n, 1)
